@@ -1614,6 +1614,15 @@ func (x *CallExpr) evaluate(c *OpContext, state Flags) Value {
 		default:
 			return f.Builtin.rawCall(c, x, state)
 		}
+	case nil:
+		// Evaluating the function failed; the error has normally been
+		// recorded already (for instance a disjunction that cannot be
+		// resolved to a single value).
+		if !c.HasErr() {
+			c.AddErrf("cannot call %s: not a function", x.Fun)
+		}
+		return nil
+
 	default:
 		if !IsConcrete(fun) && fun.Kind()&FuncKind != 0 {
 			c.addErrf(IncompleteError, Pos(x.Fun), "cannot call non-concrete value %s (type %s)", x.Fun, kind(fun))
